@@ -191,6 +191,11 @@ def wellFormedB (s : Snapshot) : Bool := Clause.all.all (fun c => (check c s).is
 def firstViolation (s : Snapshot) : Option (Clause × List String) :=
   Clause.all.findSome? (fun c => (check c s).map (fun d => (c, d)))
 
+/-- EVERY violated clause (in `Clause.all` order), each with the offending item of its check: what the driver prints,
+    so that a violation is not hidden behind another clause that is evaluated earlier. -/
+def allViolations (s : Snapshot) : List (Clause × List String) :=
+  Clause.all.filterMap (fun c => (check c s).map (fun d => (c, d)))
+
 /-- Union of two snapshots (e.g. the resources of two pushes a proxy holds at once). -/
 def Snapshot.merge (a b : Snapshot) : Snapshot :=
   { listeners := a.listeners ++ b.listeners, routes := a.routes ++ b.routes,
